@@ -550,6 +550,29 @@ def extra_scenarios(ctx, rng):
                     ctx.oracle_failure("C:%s:isdisjoint:leak-on-failing-comparison" % kind, "OO%s.isdisjoint(list) with comparison #%d raising: reference counts moved by %r" % (
                         kind, failing, [x - y for x, y in zip(now, base)]), {"kind": kind, "failing": failing})
                 del a
+    # plain iterables with repeated elements as operands: every element keeps exactly its references
+    for fname in ("union", "intersection", "difference"):
+        fn_ = f.func(fname, "C")
+        for pattern in ([1, 1, 2, 3], [3, 1, 1, 2, 2, 0], [2, 2], [0, 1, 2, 3], [3, 3, 3, 1, 4, 4, 5], [5, 4, 4, 4, 6]):
+            for kind in ("Set", "Bucket", "TreeSet", "BTree"):
+                pk = [RK(i) for i in range(8)]
+                cls = f.cls(kind, "C")
+                a = cls([pk[7]]) if kind in ("Set", "TreeSet") else cls([(pk[7], 1)])
+                lst = [pk[i] for i in pattern]
+                base = [sys.getrefcount(o) for o in pk]
+                for order in (0, 1):
+                    try:
+                        r = fn_(a, lst) if order == 0 else fn_(lst, a)
+                        del r
+                    except TypeError:
+                        pass
+                now = [sys.getrefcount(o) for o in pk]
+                nD += 1
+                ctx.count(("iterable-dups", fname, kind, tuple(pattern)))
+                if now != base:
+                    ctx.oracle_failure("C:%s:%s:iterable-with-repeats:refcount" % (kind, fname), "%s(OO%s, list) and back with the list pattern %r: element reference counts moved by %r" % (
+                        fname, kind, pattern, [x - y for x, y in zip(now, base)]), {"fn": fname, "kind": kind, "pattern": pattern})
+                del a, lst
     ctx.cov["operator_and_isdisjoint_cases"] = nD
     ctx.cov["iterate_then_delete_cases"] = nA
     ctx.cov["refused_and_successful_merges_audited"] = nB
